@@ -34,7 +34,7 @@ def Q(name, quick_n, thorough_n, depth=2, shards=8, tdepth=3):
             "shards": shards}
 
 
-BUFRULE = "memory-level model (heap of arrays, checked slice expressions) run alongside: capacity after every call compared with cap(b.buf); all ManualBuffer call sequences over a 50-op alphabet (SetMode x3, Write of 17 hostile payloads incl. markers/partial markers/LF, raw fragments, WriteByte x9, WriteRune x8, accessors, Take, Reset, Grow) up to the depth, plus random sequences of length 2-15; the hidden state (buf, validUntil, mode, markerOpen) is compared with the model after EVERY call; non-trivial = at least 2 calls"
+BUFRULE = "memory-level model (heap of arrays, checked slice expressions) run alongside: capacity after every call compared with cap(b.buf); all ManualBuffer call sequences over a 68-op alphabet (SetMode x3, Write of 20 hostile payloads incl. markers, their neighbour runes, partial markers, LF and CR LF, raw fragments, WriteString of 8 single bytes and short pieces, WriteByte x9, WriteRune x8, accessors, Take, Reset, Grow; partitioned over 8 shards), fixed shapes around Grow(70000) up to the depth, plus random sequences of length 2-15; the hidden state (buf, validUntil, mode, markerOpen) is compared with the model after EVERY call; non-trivial = at least 2 calls"
 PRINTRULE = "random printer cases from one seeded PRNG (sharded): entry points Sprint/Sprintf/Fprintf/HelperForErrorf/Sprintfn/StringBuilder; operands from the value zoo (basic and named kinds, SafeValue and registered types, []byte, slices/arrays/maps/structs with exported and unexported interface fields, pointers, Safe/Unsafe wrappers up to depth 3, RedactableString/Bytes, 12 scripted user kinds with value/pointer/nil receivers whose methods write, call every SafeWriter method, Print/Printf recursively, dump the fmt.State, panic); formats with all flags, widths, precisions, '*' forms, argument indexes, bad verbs, EXTRA/MISSING/NOVERB; hostile payloads (markers, partial markers, LF, invalid UTF-8); error hook on/off; registry on/off. Each case is run on the implementation and on the extracted model (bytes compared), and the property predicates are evaluated on the implementation's output"
 
 PROPS = {
